@@ -40,6 +40,17 @@ def finding_key(case, cfg, msg, status=None):
     joins = _joins(case["plan"], [])
     if st.get("datafusion.optimizer.enable_piecewise_merge_join") == "true" and "entered unreachable code" in (msg or ""):
         return "enable_piecewise_merge_join=true:planner-panics-on-range-predicate-with-literal"
+    if "SanityCheckPlan" in (msg or "") and "SortPreservingMergeExec" in msg and "does not satisfy order requirements" in msg \
+            and st.get("datafusion.execution.target_partitions") not in (None, "1") and any(jt in ("left", "right") for jt, _ in joins):
+        return "sanitycheck-spm-over-swapped-outer-join:target_partitions>1"
+    if "SanityCheckPlan" in (msg or "") and "does not satisfy distribution requirements" in msg and st.get("datafusion.optimizer.preserve_file_partitions") == "1" \
+            and (cfg or {}).get("source") in ("csv", "parquet"):
+        return "preserve_file_partitions=1:sanitycheck-distribution-requirements"
+    if "SanityCheckPlan" in (msg or "") and "SortPreservingMergeExec" in msg and "AggregateExec: mode=Partial" in msg and (cfg or {}).get("sorted") \
+            and st.get("datafusion.optimizer.repartition_aggregations") == "false":
+        return "sorted-source+repartition_aggregations=false:sanitycheck-spm-over-partial-aggregate"
+    if st.get("datafusion.optimizer.enable_unions_to_filter") == "true" and "unions_to_filter' failed" in (msg or "") and "No field named" in (msg or ""):
+        return "unions_to_filter-filter-above-aliasing-projection"
     if st.get("datafusion.optimizer.prefer_hash_join") == "false":
         if "declared as non-nullable but contains null values" in (msg or "") and any(jt in ("left", "right", "full") and flt for jt, flt in joins):
             return "prefer_hash_join=false:smj-outer-join-with-filter-non-nullable-field"
@@ -71,13 +82,17 @@ def make_configs(cover, entries):
     missing = [o["k"] for o in opts if not o["k"].startswith("layout.") and o["k"] not in known]
     cfgs = []
     for ri, row in enumerate(cover["rows"]):
-        c = {"id": ri + 1, "partitions": 1, "batch_rows": 0, "settings": {}, "concurrent": ri % 3 == 0}
+        c = {"id": ri + 1, "partitions": 1, "batch_rows": 0, "source": "mem", "sorted": False, "settings": {}, "concurrent": ri % 3 == 0}
         for o, vi in zip(opts, row):
             v = o["vs"][vi - 1]
             if o["k"] == "layout.partitions":
                 c["partitions"] = int(v)
             elif o["k"] == "layout.batch_rows":
                 c["batch_rows"] = int(v)
+            elif o["k"] == "layout.source":
+                c["source"] = v
+            elif o["k"] == "layout.sorted":
+                c["sorted"] = v == "true"
             elif o["k"] not in missing:
                 c["settings"][o["k"]] = v
         cfgs.append(c)
@@ -112,16 +127,23 @@ def run(ctx):
         cases = [c for c in cs if c["id"] != 0]
         select_rows(cover, maxcfg)
         configs, missing = make_configs(cover, entries)
-        default = {"id": 0, "partitions": 1, "batch_rows": 0, "settings": {}, "concurrent": True}
+        default = {"id": 0, "partitions": 1, "batch_rows": 0, "source": "mem", "sorted": False, "settings": {}, "concurrent": True}
         plain = [c for c in cases if c["mode"] in ("bag", "ordered")]
         for i, c in enumerate(cases):
             c["cfg_objs"] = [default] + [configs[k - 1] for k in c["cfgs"]]
             c["others"] = [plain[(i + 1) % len(plain)]["sql"], plain[(i + 7) % len(plain)]["sql"]] if len(plain) > 8 else []
+    if not ctx.replay:
+        # pinned cases: recorded witnesses that must stay observable (each brings its own pair of configurations; cfg 0 = its baseline)
+        import glob
+        for f in sorted(glob.glob(os.path.join(SPEC, "sem", "pinned", "c02-*.json"))):
+            cases.append(json.load(open(f)))
     inp, out = ctx.path("c02.in.ndjson"), ctx.path("c02.out.ndjson")
     write_ndjson(inp, [dict(semcases.harness_case(c), cfgs=c["cfg_objs"], others=c.get("others", [])) for c in cases])
     hsum, _ = run_harness(ctx, "vsem", ["c02", "--in", inp, "--out", out, "--threads", 4 if ctx.quick else 8], timeout=6000)
     res = {r["id"]: r for r in read_ndjson(out)}
     st = collections.Counter()
+    phys_ops = collections.Counter()
+    srcs = collections.Counter()
     nontrivial = set()
     samples = []
     used_rows = set()
@@ -152,7 +174,7 @@ def run(ctx):
             elif s_ == "diff":
                 st["differs_like_default_configuration"] += 1
             if bad and raised < 15:
-                key = finding_key(c, cfg_by_id.get(cfg_id), m_ or "", s_)
+                key = finding_key(c, cfg_by_id.get(cfg_id), m_ or "", s_) or semcases.known_key(m_)
                 raised += 0 if key else 1
                 report_violation(ctx, {"case": {k: v for k, v in c.items() if k != "cfg_objs"} | {"cfg_objs": [cfg_by_id[0], cfg_by_id[cfg_id]] if cfg_id else [cfg_by_id[0]]},
                                        "config": cfg_by_id.get(cfg_id), "db_index": d, "kind": kind, "engine": rec, "reference": views[d]["expect"],
@@ -162,6 +184,10 @@ def run(ctx):
         for run_ in r["runs"]:
             d = run_["db"]
             used_rows.add(run_["cfg"])
+            cf = cfg_by_id.get(run_["cfg"], {})
+            srcs[f"{cf.get('source', 'mem')}{'+sorted' if cf.get('sorted') else ''}"] += 1
+            for o in run_.get("ops") or []:
+                phys_ops[o] += 1
             check("run1", run_["cfg"], d, run_["r1"])
             if not run_.get("r2_identical"):
                 st["second_run_not_identical"] += 1
@@ -197,12 +223,24 @@ def run(ctx):
             break
     if not ctx.replay and (tried == 0 or tried != detected):
         raise ToolError(f"C02 selftest: {detected} of {tried} corrupted results rejected")
-    cov = {"selftest": {"corrupted_observations": tried, "rejected_by_oracle": detected}, "evaluations": hsum["executions"], "distinct_nontrivial": len(nontrivial),
+    if not ctx.replay:
+        need_ops = ["HashJoinExec:CollectLeft", "HashJoinExec:Partitioned", "SortMergeJoinExec", "NestedLoopJoinExec",
+                    "AggregateExec:Partial", "AggregateExec:FinalPartitioned", "AggregateExec:Final", "AggregateExec:Single",
+                    "SortExec", "SortExec:TopK", "SortPreservingMergeExec", "RepartitionExec", "CoalescePartitionsExec", "UnionExec",
+                    "GlobalLimitExec", "FilterExec", "ProjectionExec", "DataSourceExec"]
+        missing_ops = [o for o in need_ops if phys_ops[o] == 0]
+        if not any(k in phys_ops for k in ("WindowAggExec", "BoundedWindowAggExec")):
+            missing_ops.append("WindowAggExec|BoundedWindowAggExec")
+        need_src = ["mem", "parquet", "csv", "mem+sorted", "parquet+sorted"]
+        missing_src = [x for x in need_src if srcs[x] == 0]
+        if missing_ops or missing_src:
+            raise ToolError(f"C02: physical operators / table sources never exercised in this run: {missing_ops} {missing_src}")
+    cov = {"physical_operators_seen": dict(sorted(phys_ops.items())), "table_sources": dict(srcs), "selftest": {"corrupted_observations": tried, "rejected_by_oracle": detected}, "evaluations": hsum["executions"], "distinct_nontrivial": len(nontrivial),
            "rule": "evaluation = one execution of a case's SQL under one configuration on one database (first run / immediate second run / one of 3 "
                    "concurrent copies); non-trivial = distinct <query, configuration> whose result is non-empty and equals the non-error reference result",
            "samples": samples, "cases": len(cases), "status_counts": dict(sorted(st.items()))}
     if cover:
-        used_rows.discard(0)
+        used_rows = {r for r in used_rows if 0 < r <= len(cover["rows"])}
         pc, pt = pair_coverage(cover, used_rows)
         on_list = [o["k"] for o in cover["opts"]]
         cov.update({"configurations": len(cover["rows"]), "configurations_used": len(used_rows),
